@@ -136,6 +136,10 @@ def ctlOp (s : RState) (t : List String) : RState :=
   | ["release", a, b] => { s with w := w.ctlRelease (hostOf a) (hostOf b), expectObs := some "ok" }
   | ["crash", a] => { s with w := w.crash (hostOf a), expectObs := some "ok" }
   | ["bounce", a] => { s with w := w.bounce (hostOf a), expectObs := some "ok" }
+  | ["crash_set", hs] =>
+    -- `Sim::crash(regex)`: the selected hosts in registration order
+    let xs := ((hs.splitOn ",").map hostOf).mergeSort (· ≤ ·)
+    { s with w := xs.foldl (fun w x => w.crash x) w, expectObs := some "ok" }
   | ["links"] => { s with expectObs := some s!"links {w.linksView}" }
   | ["deliver", a, b, i] =>
     { s with w := w.ctlDeliver (hostOf a) (hostOf b) (i.toNat?.getD 0), expectObs := none }
